@@ -49,6 +49,19 @@ func allSpecs() map[string]*PropSpec {
 		NotDecided:  "equality of results across a call history as values (needs execution); staleness of files changed on disk without an invalidation notification.",
 		Rules:       []func(*Ctx){ruleLoaderCache, ruleLoaderCycle},
 	})
+	add(&PropSpec{
+		ID:          "C13",
+		Explanation: "C-PUBLISH: every PublishDiagnostics call reachable from a goroutine the server starts is (directly, or through every caller of the function value it sits in) inside a critical section and on the 'equal' side of a comparison between per-document state keyed by the document and the version the analysis was started for; every go statement that starts such an analysis passes a version obtained by a call made synchronously in the notification handler to a function that increments that state under the same lock. C-ROOTS: census of go statements, serial dispatch (no AsyncHandler). Decided for all interleavings at once.",
+		NotDecided:  "that the diagnostics of the latest version equal 'the diagnostics of the latest text' as values (relies on analysis being a function of the text, C15); fairness of the Go scheduler.",
+		Rules:       []func(*Ctx){ruleConcRoots, rulePublish},
+	})
+	add(&PropSpec{
+		ID:          "C14",
+		Explanation: "C-ORDER: may-lockset dataflow over SSA (interprocedural, through closures via the VTA call graph): no mutex is acquired while it may already be held (incl. nested read locks), and the held->acquired graph is acyclic. C-BLOCK: client methods whose implementation awaits a response are never reachable from a handler without a go statement and never called with a lock held; notifications are sent with at most the publication lock held. C-LOCKSET: every field of the long-lived shared structs that is written outside the initialisation phase and accessed from a server-started goroutine has a common lock over all its accesses (must-lockset). C-LEAK: getters that hand out a guarded map/pointer field are listed; in-place mutation of a handed-out object and writes through a handed-out reference are reported. C-ROOTS.",
+		NotDecided:  "races inside third-party libraries; aliasing beyond the field-based abstraction; that each response equals the state at handling time as a value.",
+		Assumptions: []string{"Initialize is handled before any other message (LSP lifecycle)", "handlers are dispatched serially by jsonrpc2 (re-checked by C-ROOTS)"},
+		Rules:       []func(*Ctx){ruleConcRoots, ruleLockOrder, ruleBlock, ruleLockset, ruleLeak},
+	})
 	return m
 }
 
